@@ -366,6 +366,33 @@ def run(chk):
     chk.ob("C16.R3:macro-text-unchanged", "the template macro copies each text fragment unchanged into the literal and into the generated "
            "text part", macro_text_unchanged)
 
+    def fmt_flags_parsed_verbatim():
+        """`#[emit::fmt("..")]` / `#[emit::fmt(flags: "..")]`: the flags stored by the argument parser are the literal's value, untouched -
+        every character of a format spec is significant (`:` is a legal fill character)."""
+        bs = [b for k, b in P.bodies.items() if b.crate == "emit_macros" and k == "<emit_macros::fmt::Args as syn::parse::Parse>::parse"]
+        if not bs:
+            raise mir.AnchorMissing("<emit_macros::fmt::Args as syn::parse::Parse>::parse")
+        b = bs[0]
+        n, ev = 0, []
+        for bb, j, st in b.statements(normal_only=True):
+            rv = st.get("rv") if st["k"] == "assign" else None
+            if not (rv and rv["k"] == "agg" and (rv.get("adt") or "").endswith("fmt::Args")):
+                continue
+            for f, op in zip(rv.get("fields") or [], rv["ops"]):
+                if f != "flags":
+                    continue
+                n += 1
+                o = b.origin(op)
+                if not (o[0] == "call" and o[1].callee.get("name") in ("value", "take_or_default", "take")):
+                    return False, ("fmt::Args.flags is %s at %s:%s, not the literal's value as written: a rewritten flag string formats "
+                                   "differently (e.g. stripping a leading `:` changes the fill character of `:>8`)" % (mir.o_str(o)[:140], b.file, st.get("line"))), \
+                        [], "%s:%s" % (b.file, st.get("line"))
+                ev.append("%s:%s %s" % (b.file, st.get("line"), o[1].callee.get("name")))
+        if n < 2:
+            raise mir.AnchorMissing("fmt::Args { flags } construction sites (found %d)" % n)
+        return True, "", ev
+    chk.ob("C16.R3:fmt-flags-parsed-verbatim", "#[emit::fmt] stores the flag string exactly as written, in both argument forms", fmt_flags_parsed_verbatim)
+
     def text_verbatim():
         """Every write_text in the workspace (the trait default and any override) writes the fragment with write_str - or forwards
         to an inner write_text - never through a formatting call that applies the outer width/precision/alignment per fragment."""
